@@ -56,6 +56,18 @@ def gen_template(rng, i):
             arrays[p] = (rr, cc)
             lines.append("float array %s[%d, %d] =\n    {%s}" % (nm, rr, cc, p))
             g.vars[nm] = ("array", "float", rr, cc, [None] * (rr * cc))
+        elif r < 0.41:
+            # a variable with the NAME of a parameter it is initialised from (names of variables and parameters are separate)
+            p = g.fresh(rng.choice(["alpha", "w", "gain", "th"]))
+            g.params.append(p)
+            if rng.random() < 0.5:
+                lines.append("float %s = 2 * {%s} + 1" % (p, p))
+                lines.append(rng.choice(["Dgate(%s, 0.5) | 0", "Rgate(phi=%s) | 1", "Dgate(%s * 2, {%s}) | 0" % ("%s", p)]) % p)
+            else:
+                q = g.fresh("x")
+                g.params.append(q)
+                lines.append("float array %s =\n    1.5, {%s}, {%s}" % (p, p, q))
+                lines.append(rng.choice(["Interferometer(%s) | [0, 1, 2]", "Kgate(U=%s) | 1", "Rgate(%s[1]) | 0"]) % p)
         elif r < 0.44:
             # parameter expressions that fold to a constant while parsing: {p}*0, {p}**0, {p}-{p}; with a loop variable
             # that takes the value 0 the folding happens in one iteration only
